@@ -157,3 +157,9 @@ def run(eng, tier):
         'not_decided': ['numeric value of the rounded products'],
         'assumptions': ['I4/I7/I2 on the loaded records for amount equalities'],
     }
+
+import probes as _pb
+PROBES = [
+    _pb.drop_message('execute', 'ExecuteMatch', -1),
+    _pb.drop_write('execute', 'ExecuteMatch', 'bid'),
+]
